@@ -3,6 +3,19 @@ import json, os
 VERIF = os.path.dirname(os.path.dirname(os.path.abspath(__file__)))
 PROOF = "proof"
 CHECKS = {
+ "C14": dict(
+    text="Lean 4 theorems about a heap machine (storages, objects reaching storages, effect summaries): a Safe operation (it writes in "
+         "place only storages that no live object other than its receiver reaches; returned objects are fresh) leaves the value of every "
+         "other live object unchanged, and by induction so does every finite history of Safe operations; an unsafe effect does change "
+         "another object (witness = the repaired sobol defect). The effect summary of every API call in generated histories is measured "
+         "on the implementation (untyped_storage pointers + byte hashes of all storages reachable from all live tensors and argument "
+         "arrays) and checked against Safe; independently every live tensor's dense value, format and ranks and every argument array "
+         "are compared bit-for-bit before/after each call.",
+    note="Trusted: Lean kernel + standard axioms; CPython/PyTorch object semantics as observed (data_ptr, byte hashes; `_version` is not "
+         "used because `.data *=` does not bump it); harness glue; sampling of histories. Receivers left invalid by an in-place method "
+         "are dropped from the pool (not C14's concern). tn.Tensor(t.cores) list sharing is outside the property's derivations.",
+    tech="Lean 4 proof (frame rule + induction over histories) + measured effect summaries checked against the model's Safe predicate",
+    ref="§3 C14"),
  "C18": dict(
     text="Refinement specification in Lean 4 (a batch tensor is the list of its elements; supported batch operations are the ordinary "
          "operations element by element; elem_add/elem_mul/elem_getitem, batch size preserved) so that the C02/C03 theorems transfer to "
